@@ -320,49 +320,127 @@ def gen_case(rng, mode=None, tok=False):
                      tokline=rng.random() < 0.3, kind=kind)
 
 
+MASK_PATS = ["a", "ab", "[ab]+", "x", " a", "b ", "a+", "(?:ab)+", ".", "b*", "a b", "^a", "b$", "[^ ]+", "xa?"]
+
+
+def gen_masked_case(rng):
+    """mask rules BEFORE rewrite rules: matches overlapping masked material are blocked"""
+    rules = [gen_rule(rng) for _ in range(rng.randrange(1, 4))]
+    masks = [rng.choice(MASK_PATS) if rng.random() < 0.8 else gen_pattern(rng, want_groups=False)
+             for _ in range(rng.randrange(1, 3))]
+    ops = [{"k": "rule", "id": i} for i in range(len(rules))] + [{"k": "mask", "id": i} for i in range(len(masks))]
+    rng.shuffle(ops)
+    if rng.random() < 0.7:
+        ops.insert(0, {"k": "mask", "id": rng.randrange(len(masks))})
+    if rng.random() < 0.2 and len(ops) >= 2:
+        i = rng.randrange(len(ops) - 1)
+        ops = ops[:i] + [{"k": "iter", "n": 1, "ops": ops[i:i + 2], "def": "before"}] + ops[i + 2:]
+    elif rng.random() < 0.15:
+        ops = [{"k": "ext", "name": "m0", "active": rng.random() < 0.7, "ops": ops[:2]}] + ops[2:]
+    inputs = [gen_input(rng) for _ in range(rng.choice([3, 4, 6]))]
+    return make_case(ops, rules, masks, inputs, tok=rng.choice([None, r"[ \t]+"]), via=rng.choice(["file", "string"]),
+                     kind="masked")
+
+
+def sub_subset(pat, tpl, s, keep):
+    """substitution of the matches whose index is in `keep` only"""
+    rx = re.compile(pat)
+    out, pos = [], 0
+    for i, m in enumerate(rx.finditer(s)):
+        if i in keep:
+            out.append(s[pos:m.start()])
+            out.append(m.expand(tpl))
+            pos = m.end()
+    out.append(s[pos:])
+    return "".join(out)
+
+
 # ----------------------------------------------------------------------------------------------
 # rendering a case as REPP text and loading it with the real code
 
+def render_nodes(nodes):
+    """The renderer of normalised trees — modelled in Lean as `Verif.C13.Loader.renderNodes`
+    (rule, mask, defcall, call, ext); `incl` (an include line) is the harness-only extension."""
+    out = []
+    for nd in nodes:
+        k = nd["k"]
+        if k == "rule":
+            out.append("!" + nd["pat"] + "\t" + nd["tpl"])
+        elif k == "mask":
+            out.append("=" + nd["pat"])
+        elif k == "call":
+            out.append(">" + nd["n"])
+        elif k == "ext":
+            out.append(">" + nd["name"])
+        elif k == "defcall":
+            body = ["#" + nd["n"]] + render_nodes(nd["body"]) + ["#"]
+            out.extend([">" + nd["n"]] + body if nd["after"] else body + [">" + nd["n"]])
+        elif k == "incl":
+            out.append("<" + nd["file"])
+        else:
+            raise ValueError(k)
+    return out
+
+
 class Rendered:
+    """case program -> normalised trees (second and later occurrences of a numbered group become plain
+    calls, includes and external modules get their files) -> lines"""
+
     def __init__(self, case):
         self.case = case
         self.files = {}          # included files
         self.modules = []        # (name, lines) in order of completion (inner first)
         self._ninc = 0
-        self.main = self._lines(case["prog"], set())
+        self.nodes = self._norm(case["prog"], set())
+        self.main = render_nodes(self.nodes)
         if case.get("tokline"):
             self.main = [":" + case["tok"]] + self.main
 
-    def _lines(self, nodes, scope):
+    def _norm(self, nodes, scope):
         out = []
         for nd in nodes:
             k = nd["k"]
             if k == "rule":
                 r = self.case["rules"][nd["id"]]
-                out.append("!%s\t%s" % (r["pat"], r["tpl"]))
+                out.append({"k": "rule", "pat": r["pat"], "tpl": r["tpl"]})
             elif k == "mask":
-                out.append("=" + self.case["masks"][nd["id"]])
+                out.append({"k": "mask", "pat": self.case["masks"][nd["id"]]})
             elif k == "iter":
-                n = nd["n"]
+                n = str(nd["n"])
                 if n in scope:
-                    out.append(">%d" % n)
+                    out.append({"k": "call", "n": n})
                 else:
                     scope.add(n)
-                    body = ["#%d" % n] + self._lines(nd["ops"], scope) + ["#"]
-                    out.extend(body + [">%d" % n] if nd.get("def") != "after" else [">%d" % n] + body)
+                    out.append({"k": "defcall", "n": n, "body": self._norm(nd["ops"], scope),
+                                "after": nd.get("def") == "after"})
             elif k == "ext":
                 if nd["name"] not in [m[0] for m in self.modules]:
-                    lines = self._lines(nd["ops"], set())
+                    lines = render_nodes(self._norm(nd["ops"], set()))
                     self.modules.append((nd["name"], lines))
-                out.append(">" + nd["name"])
+                out.append({"k": "ext", "name": nd["name"]})
             elif k == "incl":
                 fn = "inc%d.rpp" % self._ninc
                 self._ninc += 1
-                self.files[fn] = self._lines(nd["lines"], scope)
-                out.append("<" + fn)
+                self.files[fn] = render_nodes(self._norm(nd["lines"], scope))
+                out.append({"k": "incl", "file": fn})
             else:
                 raise ValueError(k)
         return out
+
+    def load_texts(self):
+        """the loader-model requests for this program: (label, lines, files, hasDir, pre)"""
+        if self.case["via"] == "string" and not self.files:
+            out = []
+            done = []
+            for name, lines in self.modules:
+                out.append((name, lines, {}, False, list(done)))
+                done.append(name)
+            out.append(("main", self.main, {}, False, list(done)))
+            return out
+        files = dict(self.files)
+        for name, lines in self.modules:
+            files[name + ".rpp"] = lines
+        return [("main", self.main, files, True, [])]
 
 
 def active_names(nodes, acc=None):
@@ -376,16 +454,24 @@ def active_names(nodes, acc=None):
     return acc
 
 
-def build(case, tmpdir):
-    """load the program with the real code; returns the REPP object"""
+def build(case, tmpdir, want_loaded=None):
+    """load the program with the real code; returns the REPP object.  `want_loaded`: a list that
+    receives, per loader request of `Rendered.load_texts`, the dump of what the real loader built."""
     rd = Rendered(case)
     with warnings.catch_warnings():
         warnings.simplefilter("ignore")
         if case["via"] == "string" and not rd.files:
             mods = {}
+            done = []
             for name, lines in rd.modules:
                 mods[name] = REPP.from_string("\n".join(lines), name=name, modules=mods)
-            return REPP.from_string("\n".join(rd.main), name="main", modules=mods)
+                if want_loaded is not None:
+                    want_loaded.append(dump_loaded(mods[name], done))
+                done.append(name)
+            r = REPP.from_string("\n".join(rd.main), name="main", modules=mods)
+            if want_loaded is not None:
+                want_loaded.append(dump_loaded(r, done))
+            return r
         d = tempfile.mkdtemp(dir=tmpdir)
         for fn, lines in rd.files.items():
             with open(os.path.join(d, fn), "w", encoding="utf-8") as f:
@@ -395,7 +481,91 @@ def build(case, tmpdir):
                 f.write("\n".join(lines) + "\n")
         with open(os.path.join(d, "main.rpp"), "w", encoding="utf-8") as f:
             f.write("\n".join(rd.main) + "\n")
-        return REPP.from_file(os.path.join(d, "main.rpp"))
+        r = REPP.from_file(os.path.join(d, "main.rpp"))
+        if want_loaded is not None:
+            want_loaded.append(dump_loaded(r, []))
+        return r
+
+
+# ---- the loaded module, unexpanded (calls by name, group and module tables) — the shape of the loader model
+
+def dump_module(r, pre, mods):
+    groups = {}
+
+    def ops(os_):
+        out = []
+        for o in os_:
+            if isinstance(o, R._REPPRule):
+                out.append({"k": "rule", "pat": cps(o.pattern), "tpl": cps(o.replacement)})
+            elif isinstance(o, R._REPPMask):
+                out.append({"k": "mask", "pat": cps(o.pattern)})
+            elif isinstance(o, R._REPPInternalGroup):
+                out.append({"k": "call", "n": cps(o.name)})
+                if o.name not in groups:
+                    groups[o.name] = None
+                    groups[o.name] = ops(o.operations)
+            else:
+                out.append({"k": "ext", "name": cps(o.name)})
+                if o.name not in pre:
+                    if id(o) not in _dumped:
+                        _dumped[id(o)] = None
+                        _dumped[id(o)] = dump_module(o, pre, mods)
+                    d = _dumped[id(o)]
+                    mods[o.name] = "AMBIGUOUS" if (o.name in mods and mods[o.name] != d) else d
+        return out
+    top = ops(r.operations)
+    return {"ops": top, "groups": dict(sorted(groups.items())),
+            "tok": None if r.tokenize_pattern is None else cps(r.tokenize_pattern),
+            "info": None if r.info is None else cps(r.info)}
+
+
+_dumped = {}
+
+
+def dump_loaded(r, pre):
+    _dumped.clear()
+    mods = {}
+    main = dump_module(r, set(pre), mods)
+    return {"ok": {"main": main, "mods": dict(sorted(mods.items()))}}
+
+
+def prune_loaded(ans, pre):
+    """the model keeps every defined group and every module it loaded; the real objects only show what is
+    reachable from the operations: prune the model's answer to that"""
+    if not isinstance(ans, dict) or "ok" not in ans:
+        return ans
+    table = {uncps(n): m for n, m in ans["ok"]["mods"]}
+
+    def pm(m):
+        gt = {uncps(n): o for n, o in m["groups"]}
+        seen = {}
+
+        def walk(os_):
+            for o in os_:
+                if o["k"] == "call":
+                    n = uncps(o["n"])
+                    if n not in seen and n in gt:
+                        seen[n] = gt[n]
+                        walk(gt[n])
+        walk(m["ops"])
+        return {"ops": m["ops"], "groups": dict(sorted(seen.items())), "tok": m["tok"], "info": m["info"]}
+    mods = {}
+
+    def wm(m):
+        p = pm(m)
+        for o in p["ops"] + [x for g in p["groups"].values() for x in g]:
+            if o["k"] == "ext":
+                n = uncps(o["name"])
+                if n not in pre and n not in mods and n in table:
+                    mods[n] = pm(table[n])
+                    wm(table[n])
+    wm(ans["ok"]["main"])
+    return {"ok": {"main": pm(ans["ok"]["main"]), "mods": dict(sorted(mods.items()))}}
+
+
+def load_request(lines, files, has_dir, pre, fuel=3000):
+    return {"lines": [cps(x) for x in lines], "files": [[cps(fn), [cps(x) for x in ls]] for fn, ls in sorted(files.items())],
+            "hasDir": bool(has_dir), "pre": [cps(x) for x in pre], "fuel": fuel}
 
 
 def jseg(x):
@@ -475,8 +645,9 @@ def jstep(st, rule_id, mask_id):
 def observe(case, tmpdir, want_tokens=True):
     """Everything both checks look at, from the real code.  Returns a dict:
     load / tree / runs[...] with steps, string, maps, applysame, shown, tokens, yy, reparsed, eng, seps"""
+    loaded = []
     try:
-        r = build(case, tmpdir)
+        r = build(case, tmpdir, loaded)
     except (re.error, R.REPPError, IndexError, ValueError) as e:
         return {"err": err_name(e)}
     rule_id = {}
@@ -495,7 +666,9 @@ def observe(case, tmpdir, want_tokens=True):
                                             "ngroups": o._re.groups,
                                             "names": sorted([cps(k), v] for k, v in o._re.groupindex.items())})
     active = sorted(active_names(case["prog"]))
-    obs = {"load": load, "tree": [dump_tree(o) for o in r.operations], "runs": [], "eng": [], "tokpat": r.tokenize_pattern}
+    obs = {"load": load, "tree": [dump_tree(o) for o in r.operations], "runs": [], "eng": [], "meng": [],
+           "tokpat": r.tokenize_pattern,
+           "loaded": loaded, "ltexts": Rendered(case).load_texts()}
     engseen = set()
     for inp in case["inputs"]:
         s = uncps(inp)
@@ -512,6 +685,9 @@ def observe(case, tmpdir, want_tokens=True):
         res = tr[-1]
         steps = tr[:-1]
         run["steps"] = [jstep(st, rule_id, mask_id) for st in steps]
+        if case["kind"] == "masked":
+            for js, st in zip(run["steps"], steps):
+                js["mask"] = list(st.mask)
         run["string"] = cps(res.string)
         run["startmap"] = list(res.startmap)
         run["endmap"] = list(res.endmap)
@@ -528,6 +704,11 @@ def observe(case, tmpdir, want_tokens=True):
                 if key not in engseen:
                     engseen.add(key)
                     obs["eng"].append({"id": key[0], "s": cps(st.input), "ms": [jmatch(m) for m in op._re.finditer(st.input)]})
+            elif isinstance(op, R._REPPMask):
+                key = ("m", mask_id[op.pattern], st.input)
+                if key not in engseen:
+                    engseen.add(key)
+                    obs["meng"].append({"id": key[1], "s": cps(st.input), "ms": [jmatch(m) for m in op._re.finditer(st.input)]})
         if case.get("tok") is not None and want_tokens:
             pat = case["tok"]
             with warnings.catch_warnings():
@@ -612,6 +793,174 @@ def check_matches(s, ms, ngroups):
     return None
 
 
+# ----------------------------------------------------------------------------------------------
+# loader streams: raw line soups (every declaration kind, malformed lines, unbalanced groups, missing files)
+# and normalised trees for the renderer round trip
+
+LINE_POOL = ["!a\tb", "!a\t\tb c", "!(a)\t\\1\tx", "!a", "!\tb", "!a b\t", "=a ", "=", "#1", "#2", "#3", "#", "#", "#", "# ",
+             "#x", "#1 ", ">1", ">2", ">3", ">4", ">", " >1", ">m0", ">m1", ">m9", ">m0 ", "<inc0.rpp", "<inc1.rpp", "<nofile",
+             "<inc0.rpp  ", ":[ ]+", ": ", ":x", "@info", "@", ";c", "", "  ", " !a\tb", "?x", "!a\tb", "!b\t\\1x", "\t", ";"]
+
+
+def gen_load_case(rng):
+    def soup(n, allow):
+        pool = [x for x in LINE_POOL if allow(x)]
+        return [rng.choice(pool) for _ in range(rng.randrange(0, n))]
+    r = rng.random()
+    if r < 0.35:
+        # a rendered program, damaged a little
+        g = ProgGen(rng)
+        prog = g.nodes(rng.choice([1, 2, 2]))
+        c = make_case(prog, g.rules, [], [], via="file")
+        rd = Rendered(c)
+        files = dict(rd.files)
+        for name, ls in rd.modules:
+            files[name + ".rpp"] = ls
+        main = list(rd.main)
+        target = rng.choice([main] + list(files.values()))
+        for _ in range(rng.randrange(0, 3)):
+            op = rng.random()
+            i = rng.randrange(len(target) + 1)
+            if op < 0.3 and target:
+                del target[min(i, len(target) - 1)]
+            elif op < 0.6:
+                target.insert(i, rng.choice(LINE_POOL))
+            elif op < 0.8 and len(target) >= 2:
+                a, b = rng.randrange(len(target)), rng.randrange(len(target))
+                target[a], target[b] = target[b], target[a]
+            elif target:
+                target.insert(i, target[min(i, len(target) - 1)])
+        mode, pre = "file", []
+    else:
+        files = {"inc0.rpp": soup(5, lambda x: not x.startswith("<") and not x.startswith(">m")),
+                 "inc1.rpp": soup(5, lambda x: "inc1" not in x and not x.startswith(">m")),
+                 "m1.rpp": soup(5, lambda x: not x.startswith(">m") and "inc1" not in x),
+                 "m0.rpp": soup(6, lambda x: ">m0" not in x)}
+        main = soup(9, lambda x: True)
+        mode = rng.choice(["file", "file", "string", "stringpre"])
+        pre = ["m1"] if mode == "stringpre" else []
+        if mode != "file":
+            files = {}
+    if load_cyclic(main, files):
+        return gen_load_case(rng)       # include / module cycles never terminate in the real loader
+    return {"kind": "load", "lines": [cps(x) for x in main], "files": {fn: [cps(x) for x in ls] for fn, ls in files.items()},
+            "mode": mode, "pre": pre}
+
+
+def load_cyclic(main, files):
+    def refs(ls):
+        out = set()
+        for ln in ls:
+            if ln.startswith("<") and ln[1:].rstrip() in files:
+                out.add(ln[1:].rstrip())
+            if ln.startswith(">") and (ln[1:].rstrip() + ".rpp") in files:
+                out.add(ln[1:].rstrip() + ".rpp")
+        return out
+    graph = {fn: refs(ls) for fn, ls in files.items()}
+    state = {}
+
+    def visit(n):
+        if state.get(n) == 1:
+            return True
+        if state.get(n) == 2:
+            return False
+        state[n] = 1
+        if any(visit(m) for m in graph.get(n, ())):
+            return True
+        state[n] = 2
+        return False
+    return any(visit(n) for n in list(graph))
+
+
+def gen_render_case(rng):
+    pre = rng.choice([[], ["m0"], ["m0", "mod"]])
+    names = [str(i) for i in range(1, 6)]
+    rng.shuffle(names)
+    defined = []
+    bad = rng.random() < 0.25          # sometimes outside the well-formed trees
+
+    def nodes(depth, n):
+        out = []
+        for _ in range(n):
+            r = rng.random()
+            if r < 0.45 or depth <= 0:
+                ru = gen_rule(rng)
+                tpl = ru["tpl"]
+                if bad and rng.random() < 0.2:
+                    tpl = rng.choice(["\t" + tpl, tpl + "\t", " " + tpl])
+                out.append({"k": "rule", "pat": ru["pat"], "tpl": tpl})
+            elif r < 0.55:
+                out.append({"k": "mask", "pat": rng.choice(["a", "a ", " ", "[ab]+", "x\t"])})
+            elif r < 0.75 and names:
+                nm = names.pop()
+                defined.append(nm)
+                out.append({"k": "defcall", "n": nm, "body": nodes(depth - 1, rng.choice([0, 1, 2, 3])),
+                            "after": rng.random() < 0.4})
+                if bad and rng.random() < 0.15:
+                    names.append(nm)            # defined twice
+            elif r < 0.9:
+                pool = ["1", "2", "3", "4", "5"] if (bad or rng.random() < 0.5) else list(defined)
+                if pool:
+                    out.append({"k": "call", "n": rng.choice(pool)})
+            elif pre or bad:
+                out.append({"k": "ext", "name": rng.choice(pre + (["m0 ", "zz"] if bad else []))})
+        return out
+    tree = nodes(rng.choice([1, 2, 3]), rng.choice([1, 2, 3, 4]))
+    info = rng.choice([None, None, "info", "x y", "" if bad else "v1"])
+    tok = rng.choice([None, None, "[ \\t]+", "x*", " " if bad else ","])
+    return {"kind": "render", "nodes": tree, "info": info, "tok": tok, "pre": pre}
+
+
+def py_rstrip_ok(s):
+    return s == s.rstrip()
+
+
+def render_expected(case):
+    """what loading the rendered tree must give (ops, reachable group table) — or None when the tree is not
+    one of the well-formed trees of `load_roundtrip`"""
+    defs, calls = [], []
+    ok = [True]
+
+    def ops_of(nodes):
+        out = []
+        for nd in nodes:
+            k = nd["k"]
+            if k == "rule":
+                if not nd["pat"] or "\t" in nd["pat"] or nd["tpl"].startswith("\t") or "\n" in nd["tpl"]:
+                    ok[0] = False
+                out.append({"k": "rule", "pat": cps(nd["pat"]), "tpl": cps(nd["tpl"])})
+            elif k == "mask":
+                out.append({"k": "mask", "pat": cps(nd["pat"])})
+            elif k == "call":
+                calls.append(nd["n"])
+                out.append({"k": "call", "n": cps(nd["n"])})
+            elif k == "ext":
+                nm = nd["name"]
+                if not nm or nm.isdigit() or not py_rstrip_ok(nm) or nm not in case["pre"]:
+                    ok[0] = False
+                out.append({"k": "ext", "name": cps(nm)})
+            else:
+                if not nd["n"].isdigit():
+                    ok[0] = False
+                calls.append(nd["n"])
+                body = ops_of(nd["body"])
+                defs.append((nd["n"], body))
+                out.append({"k": "call", "n": cps(nd["n"])})
+        return out
+    top = ops_of(case["nodes"])
+    names = [n for n, _ in defs]
+    if len(set(names)) != len(names) or any(c not in names for c in calls):
+        ok[0] = False
+    for s in (case["info"], case["tok"]):
+        if s is not None and not py_rstrip_ok(s):
+            ok[0] = False
+    if not ok[0]:
+        return None
+    m = {"ops": top, "groups": [[cps(n), b] for n, b in defs], "tok": None if case["tok"] is None else cps(case["tok"]),
+         "info": None if case["info"] is None else cps(case["info"])}
+    return prune_loaded({"ok": {"main": m, "mods": []}}, case["pre"])
+
+
 INIT = lambda n: ([1] + [0] * (n + 1), [0] * (n + 1) + [-1])     # noqa: E731
 
 
@@ -679,12 +1028,24 @@ class C13(Check):
     # ---- cases
     modes = None
     want_tok = False
+    loader_stream = True
 
     def cases(self, rng, tier, n):
         L = 3 if tier == "quick" else 5
         yield from specimen_cases(L, tier)
         # a load error
         yield make_case([{"k": "rule", "id": 0}], [{"pat": "(a)(b)", "tpl": r"\1\3"}], [], ["ab"], kind="loaderr")
+        if self.loader_stream:
+            k = 0
+            while k < n // 4:
+                c = gen_masked_case(rng)
+                if terminates(c):
+                    k += 1
+                    yield c
+            for _ in range(n // 3):
+                yield gen_load_case(rng)
+            for _ in range(n // 4):
+                yield gen_render_case(rng)
         k = 0
         while k < n:
             c = gen_case(rng, mode=(rng.choice(self.modes) if self.modes else None), tok=self.want_tok)
@@ -695,6 +1056,11 @@ class C13(Check):
             yield c
 
     def search_cases(self, rng, tier, n, seeds):
+        if self.loader_stream and any(c["kind"] in ("load", "render") for c in seeds):
+            for _ in range(n // 2):
+                yield gen_load_case(rng)
+                yield gen_render_case(rng)
+            return
         for _ in range(n):
             c = gen_case(rng)
             if terminates(c):
@@ -719,6 +1085,10 @@ class C13(Check):
     KEYS = ("steps", "string")
 
     def impl(self, case):
+        if case["kind"] == "load":
+            return self.impl_load(case)
+        if case["kind"] == "render":
+            return self.impl_render(case)
         obs = self.full(case)
         self.model_request(case)          # built now, while the observation is at hand
         if "err" in obs:
@@ -727,7 +1097,61 @@ class C13(Check):
         for run in obs["runs"]:
             runs.append(run if "err" in run else {k: run[k] for k in self.KEYS if k in run})
         return {"load": [None if x is None else {"tracked": x["tracked"], "untracked": x["untracked"]} for x in obs["load"]],
-                "runs": runs}
+                "runs": runs, "loaded": obs["loaded"]}
+
+    # ---- loader cases: raw line soups, and rendered trees
+    def real_load(self, lines, files, mode, pre):
+        """the real loader on the given text; `pre`: names of preloaded one-rule modules"""
+        own = self.tmp is None
+        if own:
+            self.setup()
+        try:
+            with warnings.catch_warnings():
+                warnings.simplefilter("ignore")
+                try:
+                    return with_timeout(3.0, lambda: self._real_load(lines, files, mode, pre))
+                except Timeout:
+                    return {"err": "fuel"}
+        finally:
+            if own:
+                self.teardown()
+
+    def _real_load(self, lines, files, mode, pre):
+        if True:
+            if True:
+                try:
+                    if mode == "file":
+                        d = tempfile.mkdtemp(dir=self.tmp)
+                        for fn, ls in files.items():
+                            with open(os.path.join(d, fn), "w", encoding="utf-8") as f:
+                                f.write("".join(x + "\n" for x in ls))
+                        with open(os.path.join(d, "main.rpp"), "w", encoding="utf-8") as f:
+                            f.write("".join(x + "\n" for x in lines))
+                        r = REPP.from_file(os.path.join(d, "main.rpp"))
+                    else:
+                        mods = {n: REPP.from_string("!q\tr") for n in pre}
+                        r = REPP.from_string("\n".join(lines), modules=mods)
+                    return dump_loaded(r, pre)
+                except R.REPPError:
+                    return {"err": "REPPError"}
+                except IndexError:
+                    return {"err": "IndexError"}
+                except AttributeError:
+                    return {"err": "AttributeError"}
+                except re.error:
+                    return {"err": "re.error"}
+                except RecursionError:
+                    return {"err": "fuel"}
+
+    def impl_load(self, case):
+        return {"loaded": self.real_load([uncps(x) for x in case["lines"]],
+                                         {fn: [uncps(x) for x in ls] for fn, ls in case["files"].items()},
+                                         case["mode"], case["pre"])}
+
+    def impl_render(self, case):
+        lines = ([] if case["info"] is None else ["@" + case["info"]]) + ([] if case["tok"] is None else [":" + case["tok"]]) \
+            + render_nodes(case["nodes"])
+        return {"lines": [cps(x) for x in lines], "loaded": self.real_load(lines, {}, "string", case["pre"])}
 
     def model_request(self, case):
         key = json.dumps(case, sort_keys=True)
@@ -739,6 +1163,23 @@ class C13(Check):
         return req
 
     def build_request(self, case):
+        if case["kind"] == "load":
+            req = load_request([uncps(x) for x in case["lines"]], {fn: [uncps(x) for x in ls] for fn, ls in case["files"].items()},
+                               case["mode"] == "file", case["pre"])
+            req["op"] = "load"
+            return req
+        if case["kind"] == "render":
+            def conv(nodes):
+                out = []
+                for nd in nodes:
+                    nd = {k: (cps(v) if isinstance(v, str) and k != "k" else v) for k, v in nd.items()}
+                    if "body" in nd:
+                        nd["body"] = conv(nd["body"])
+                    out.append(nd)
+                return out
+            return {"op": "render", "nodes": conv(case["nodes"]), "info": None if case["info"] is None else cps(case["info"]),
+                    "tok": None if case["tok"] is None else cps(case["tok"]), "files": [], "hasDir": False,
+                    "pre": [cps(x) for x in case["pre"]], "fuel": 3000}
         obs = self.full(case)
         if "err" in obs:
             if obs["err"] != "re.error":
@@ -776,10 +1217,38 @@ class C13(Check):
         for inp, run in zip(case["inputs"], obs["runs"]):
             inputs.append(inp)
             seps.append(run.get("seps") if "err" not in run else None)
-        return {"op": "run", "rules": rules, "prog": conv(case["prog"]), "eng": obs["eng"], "inputs": inputs,
-                "seps": seps, "fuel": FUEL}
+        req = {"op": "run", "rules": rules, "prog": conv(case["prog"]), "eng": obs["eng"], "inputs": inputs,
+               "seps": seps, "fuel": FUEL,
+               "ltexts": [load_request(lines, files, hd, pre) for _, lines, files, hd, pre in obs["ltexts"]]}
+        if case["kind"] == "masked":
+            req["meng"] = obs["meng"]        # selects the mask-threading semantics of the model
+        return req
 
     def model_compare(self, case, expected, answer):
+        if case["kind"] == "load":
+            if expected["loaded"].get("err") == "re.error":
+                return None      # compiling the expressions is outside the loader model
+            got = prune_loaded(answer, case["pre"]) if isinstance(answer, dict) else answer
+            return None if got == expected["loaded"] else {"expected_from_impl": expected["loaded"], "model": got}
+        if case["kind"] == "render":
+            if not isinstance(answer, dict) or answer.get("lines") != expected["lines"]:
+                return {"renderer": "harness and Lean renderers differ", "expected_from_impl": expected["lines"],
+                        "model": answer.get("lines") if isinstance(answer, dict) else answer}
+            if expected["loaded"].get("err") == "re.error":
+                return None
+            got = prune_loaded(answer.get("loaded"), case["pre"])
+            return None if got == expected["loaded"] else {"expected_from_impl": expected["loaded"], "model": got}
+        if "err" not in expected and isinstance(answer, dict) and "runs" in answer:
+            obs = self.full(case)
+            got = answer.get("loaded")
+            if "loaded" not in expected:
+                pass
+            elif not isinstance(got, list) or len(got) != len(expected.get("loaded", [])):
+                return {"loader": "missing", "model": got}
+            for (label, _, _, _, pre), e, a in zip(obs["ltexts"], expected.get("loaded", []), got or []):
+                a = prune_loaded(a, pre)
+                if a != e:
+                    return {"loader": label, "expected_from_impl": e, "model": a}
         if "err" in expected:
             if expected["err"] == "re.error":
                 ok = isinstance(answer, dict) and any(isinstance(x, dict) and x.get("err") == "re.error"
@@ -824,6 +1293,16 @@ class C13(Check):
 
         def fail(clause, detail):
             fails.append({"clause": clause, "detail": detail})
+        if case["kind"] == "load":
+            return self.oracle_load(case, res)
+        if case["kind"] == "render":
+            want = render_expected(case)
+            if want is not None and res["loaded"] != want and res["loaded"].get("err") != "re.error":
+                fail("loading the rendered text of an operation tree does not give the tree back",
+                     repr((res["loaded"], want))[:900])
+            return fails
+        if case["kind"] == "masked":
+            return self.oracle_masked(case)
         obs = self.full(case)
         # load errors: the reference must reject the same template
         if "err" in obs:
@@ -878,7 +1357,7 @@ class C13(Check):
                     fail("a mask rule changed the string or a reported span", repr((s, st)))
             if not run["applysame"] or not run["shownlast"]:
                 fail("last element of trace differs from apply", repr(s))
-            if run["shown"] != [st for st in run["steps"] if st["applied"]]:
+            if run["shown"] != [{k: v for k, v in st.items() if k != "mask"} for st in run["steps"] if st["applied"]]:
                 fail("trace(verbose=False) is not the applied steps of trace(verbose=True)", repr(s))
             if not any(st["applied"] for st in run["steps"] if st["kind"] == "rule"):
                 a, b = INIT(len(s))
@@ -907,10 +1386,112 @@ class C13(Check):
                 fail("loading from files differs from loading from strings", repr((strip_obs(v), base))[:600])
         return fails
 
+    def oracle_masked(self, case):
+        """programs WITH masks: every rule step rewrites exactly the matches that are not blocked —
+        all of them when no match touches masked material (then the step is the plain substitution), and
+        in any case some subset that contains every match free of masked material; a blocked match is
+        left alone.  Chain, lengths and mask steps as for mask-free programs."""
+        fails = []
+
+        def fail(clause, detail):
+            fails.append({"clause": clause, "detail": detail})
+        obs = self.full(case)
+        if "err" in obs:
+            return fails
+        for inp, run in zip(case["inputs"], obs["runs"]):
+            s = uncps(inp)
+            if "err" in run:
+                if run["err"] != "timeout":
+                    fail("apply raises on a program with masks", repr((s, run["err"])))
+                continue
+            cur = s
+            mask = [0] * (len(s) + 2)
+            for st in run["steps"]:
+                si, so = uncps(st["inp"]), uncps(st["out"])
+                if st["kind"] == "group":
+                    if so != cur or any(st["sm"]) or any(st["em"]):
+                        fail("group summary step does not report the current string with zero maps", repr((s, st)))
+                elif si != cur:
+                    fail("trace chain broken: a step's input is not the previous step's output", repr((s, st, cur)))
+                    break
+                if len(st["mask"]) != len(so) + 2 or len(st["sm"]) != len(so) + 2 or len(st["em"]) != len(so) + 2:
+                    fail("step arrays do not have one entry per output position plus two sentinels", repr((s, st)))
+                    break
+                if st["kind"] == "mask":
+                    if so != si or any(st["sm"]) or any(st["em"]):
+                        fail("a mask rule changed the string or a reported span", repr((s, st)))
+                elif st["kind"] == "rule":
+                    ru = case["rules"][st["id"]]
+                    ms = list(re.finditer(ru["pat"], si))
+                    clean = [i for i, m in enumerate(ms) if not any(mask[m.start() + 1:m.end() + 1])]
+                    dirty = [i for i in range(len(ms)) if i not in clean]
+                    if not dirty:
+                        if so != re.sub(ru["pat"], ru["tpl"], si):
+                            fail("no match touches masked material, but the step is not the plain substitution",
+                                 repr((ru, si, mask, so)))
+                    elif len(dirty) <= 10:
+                        ok = False
+                        for bits in range(1 << len(dirty)):
+                            keep = set(clean) | {d for j, d in enumerate(dirty) if bits >> j & 1}
+                            if sub_subset(ru["pat"], ru["tpl"], si, keep) == so:
+                                ok = True
+                                break
+                        if not ok:
+                            fail("under a mask the step is not the substitution of the unmasked matches plus some of the "
+                                 "masked ones (a blocked match must be left alone)", repr((ru, si, mask, so)))
+                    if not st["applied"] and (so != si or any(st["sm"]) or any(st["em"][:-1])):
+                        fail("a rule step that did not apply changed the string or the maps", repr((s, st)))
+                    cur = so
+                mask = st["mask"]
+            if cur != uncps(run["string"]):
+                fail("trace chain does not end in the result of apply", repr((s, cur, uncps(run["string"]))))
+            if not run["applysame"]:
+                fail("last element of trace differs from apply", repr(s))
+            n, out = len(s), uncps(run["string"])
+            if len(run["startmap"]) != len(out) + 2 or len(run["endmap"]) != len(out) + 2:
+                fail("offset maps do not have one entry per output position plus two sentinels", repr((s, out)))
+        return fails
+
+    def oracle_load(self, case, res):
+        """including a file equals splicing its lines in place — on the real loader, at every depth, for
+        well-formed and malformed text alike (same module or same error)"""
+        fails = []
+        if case["mode"] != "file":
+            return fails
+        lines = [uncps(x) for x in case["lines"]]
+        files = {fn: [uncps(x) for x in ls] for fn, ls in case["files"].items()}
+        # splice the first include line of the main text, and the first one inside any file
+        targets = [("main", lines)] + sorted(files.items())
+        for label, ls in targets:
+            for i, ln in enumerate(ls):
+                if ln.startswith("<") and ln[1:].rstrip() in files and not ln.startswith(";"):
+                    fl = files[ln[1:].rstrip()]
+                    spliced = ls[:i] + fl + ls[i + 1:]
+                    if label == "main":
+                        got = self.real_load(spliced, files, "file", [])
+                    else:
+                        got = self.real_load(lines, dict(files, **{label: spliced}), "file", [])
+                    if got != res["loaded"] and "fuel" not in (got.get("err"), res["loaded"].get("err")):
+                        fails.append({"clause": "including a file differs from splicing its lines in place (loader)",
+                                      "detail": repr((label, i, ln, res["loaded"], got))[:900]})
+                    break
+        return fails
+
     def stats(self, case, res, counters):
         def inc(k, n=1):
             counters[k] = counters.get(k, 0) + n
         inc("kind:" + case["kind"])
+        if case["kind"] in ("load", "render"):
+            ld = res.get("loaded", {}) if isinstance(res, dict) else {}
+            inc("loader:" + (ld.get("err") or "ok"))
+            if case["kind"] == "load":
+                inc("loader_mode:" + case["mode"])
+                txt = [uncps(x) for x in case["lines"]] + [uncps(x) for ls in case["files"].values() for x in ls]
+                for ln in txt:
+                    inc("line:" + (ln[0] if ln and ln[0] in "!<>=#:@;" else "other"))
+            else:
+                inc("render:" + ("wf" if render_expected(case) is not None else "illformed"))
+            return
         inc("inputs", len(case["inputs"]))
         inc("via:" + case["via"])
         for k in ("iter", "ext", "incl", "mask"):
@@ -931,6 +1512,24 @@ class C13(Check):
             inc("err:" + str((res or {}).get("err")))
             return
         obs = self.full(case)
+        if case["kind"] == "masked":
+            for inp, run in zip(case["inputs"], obs["runs"]):
+                if "err" in run:
+                    continue
+                mask = [0] * (len(inp) + 2)
+                for st in run["steps"]:
+                    if st["kind"] == "rule":
+                        ru = case["rules"][st["id"]]
+                        si = uncps(st["inp"])
+                        ms = list(re.finditer(ru["pat"], si))
+                        inc("masked:rule_steps")
+                        if any(any(mask[m.start() + 1:m.end() + 1]) for m in ms):
+                            inc("masked:steps_with_masked_match")
+                            if uncps(st["out"]) != re.sub(ru["pat"], ru["tpl"], si):
+                                inc("masked:steps_with_blocked_match")
+                            if ms and not st["applied"]:
+                                inc("masked:steps_all_blocked")
+                    mask = st["mask"]
         for ent in obs["eng"]:
             inc("rule_applications")
             for m in ent["ms"]:
@@ -952,6 +1551,10 @@ class C13(Check):
                 inc("runs:identity")
 
     def nontrivial_key(self, case, res):
+        if case["kind"] == "load":
+            return json.dumps(case, sort_keys=True) if case["lines"] else None
+        if case["kind"] == "render":
+            return json.dumps(case, sort_keys=True) if case["nodes"] else None
         if not isinstance(res, dict) or "runs" not in res:
             return None
         obs = self.full(case)
@@ -960,6 +1563,18 @@ class C13(Check):
         return json.dumps(case, sort_keys=True)
 
     def shrink(self, case, still_fails):
+        if case["kind"] == "load":
+            changed = True
+            while changed:
+                changed = False
+                for i in range(len(case["lines"])):
+                    c = dict(case, lines=case["lines"][:i] + case["lines"][i + 1:])
+                    if still_fails(c):
+                        case, changed = c, True
+                        break
+            return case
+        if case["kind"] == "render":
+            return case
         # one input
         if len(case["inputs"]) > 1:
             for inp in case["inputs"]:
